@@ -1,7 +1,7 @@
 (** * Extraction of the executable model for the correspondence harness.
     [ExtrOcamlBasic] only: bool, option, unit, prod, list, sumbool map to OCaml's; [N], [nat],
     [positive] stay the extracted inductive types.  No [Extract Constant]. *)
-From SSZ Require Import Codec Spec BitfieldOps Hex Alloc Derive SplitSpec SpecDec.
+From SSZ Require Import Codec Spec BitfieldOps Hex Alloc Derive SplitSpec SpecDec ListView.
 Require Extraction.
 Require ExtrOcamlBasic.
 Extraction Language OCaml.
@@ -28,4 +28,5 @@ Extraction "extracted/ssz_model.ml"
   hex_encode prefixed_hex_decode serde_ser serde_de
   units ufactor
   derive derive_enc derive_dec union_selectors
-  SplitSpec.split layout_ok spec_dec.
+  SplitSpec.split layout_ok spec_dec
+  list_view collect_rec.
